@@ -204,18 +204,21 @@ def api_ops(rng, n=None, valid_only=False):
             for _f in range(rng.randrange(1, 4)):
                 fl = rng.choice([0, 1, 5, 126, 200])
                 ops.append(f"bf,{fl}")
-                data = rng.randbytes(fl)
+                data = rng.randbytes(fl) if b else bytes(rng.choice(b"abcXYZ 09") for _ in range(fl))
                 if fl == 0:
                     ops.append("fd,-,0")
                 else:
-                    cuts = sorted(rng.randrange(0, fl + 1) for _ in range(rng.randrange(0, 3)))
+                    cuts = sorted(set(rng.randrange(1, fl + 1) for _ in range(rng.randrange(0, 3))) - {fl})
                     for a, bb in zip([0] + cuts, cuts + [fl]):
                         ops.append(f"fd,{hx(data[a:bb])},{int(rng.random() < 0.2)}")
+                    if rng.random() < 0.15:
+                        ops.insert(len(ops) - 1, "fd,-,0")   # an empty chunk while the frame is still open
             ops.append("em")
         elif k == "mframe":
             ops.append(f"bm,{b}")
             for _f in range(rng.randrange(1, 3)):
-                ops.append(f"mf,{hx(rng.randbytes(rng.choice([0, 1, 125, 126, 300])))},0")
+                fl = rng.choice([0, 1, 125, 126, 300])
+                ops.append(f"mf,{hx(rng.randbytes(fl) if b else bytes(rng.choice(b'abcXYZ 09') for _ in range(fl)))},0")
             ops.append("em")
         elif k == "ping":
             ops.append(f"ping,{hx(rng.randbytes(rng.choice([0, 1, 125])))}")
